@@ -1,9 +1,78 @@
-(* C19 -- connection racing returns one socket and leaks none: theorem statements (proofs in Proofs/C19_*.v). *)
+(* C19 -- connection racing returns one socket and leaks none: theorem statements (proofs in Proofs/C19_*.v).
+   Model: Conc/ConnRace.v.
+
+   NOT YET PROVED (kept here so that nobody mistakes the partial results below for them):
+     open_sockets_invariant : forall c tr s, NoDup (map a_id (c_addrs c)) -> c_addrs c <> [] ->
+        exec c (init c) tr = Some s ->
+        NoDup (r_open s) /\ forall id, In id (r_open s) <-> connecting c (r_att s) id \/ (r_winner s = Some id /\ kept s)
+     result_exact : ... exec c (init c) tr = Some s ->
+        (forall id, r_result s = Some (ResSock id) -> r_open s = [id]) /\
+        (forall o, r_result s = Some o -> (forall id, o <> ResSock id) -> r_open s = []) /\
+        (forall n, r_result s = Some (ResErrs n) -> 1 <= n)
+     interleave_perm : forall l, Permutation (interleave l) l ;  first attempt is IPv6 when one exists
+   The invariant record [Inv], its establishment [init_inv] and the update lemmas are in Proofs/C19_proofs.v; the
+   preservation lemma over the 11 labels is missing.  The statements above are checked on every run only by
+   execution (model = implementation on every case, and the driver's oracle), not by proof. *)
 From Coq Require Import ZArith List Bool Arith Lia Permutation.
 Import ListNotations.
-From EN Require Import Gen.ParamsC19 Conc.ConnRace Proofs.C19_reorder.
+From EN Require Import Gen.ParamsC19 Conc.ConnRace Proofs.C19_reorder Proofs.C19_proofs.
 
 (* _prioritize_ipv6_over_ipv4 returns the same multiset of addresses *)
 Theorem prioritize_perm : forall l : list acfg, Permutation (prioritize l) l.
 Proof. exact prioritize_perm_l. Qed.
 Print Assumptions prioritize_perm.
+
+(* _create_connection_impl, from any position of any address list: when it suspends in a connect exactly that
+   address's socket has been added to the open set; when it returns a socket exactly that one; on every other exit
+   (all addresses failed, non-OSError exception) nothing: every socket created on the way was closed again *)
+Theorem create_connection_opens_exactly_partial : forall locals l errs open,
+  match cc_advance locals l errs open with
+  | (CcWait cur _ _, open') => open' = a_id cur :: open
+  | (CcDone (OutSock id), open') => open' = id :: open
+  | (CcDone _, open') => open' = open
+  end.
+Proof. exact cc_advance_open. Qed.
+Print Assumptions create_connection_opens_exactly_partial.
+
+(* resuming the pending connect with any outcome (success, OSError, other exception, cancellation): its socket stays
+   open only on success; on OSError the loop goes on with the remaining addresses *)
+Theorem create_connection_resume_exact_partial : forall locals cur rest errs r open0, ~ In (a_id cur) open0 ->
+  match cc_resume locals cur rest errs r (a_id cur :: open0) with
+  | (CcWait cur' _ _, open') => open' = a_id cur' :: open0
+  | (CcDone (OutSock id), open') => open' = id :: open0
+  | (CcDone _, open') => open' = open0
+  end.
+Proof. exact cc_resume_open. Qed.
+Print Assumptions create_connection_resume_exact_partial.
+
+(* a connect attempt that succeeds while a winner exists closes its own socket and leaves the winner alone,
+   in every state (not only reachable ones) *)
+Theorem double_success_closes_loser : forall (c : rcfg) s i s' w a,
+  r_winner s = Some w -> nth_error (c_addrs c) i = Some a -> step c s (LConnOk i) = Some s' ->
+  ~ In (a_id a) (r_open s') /\ r_winner s' = Some w /\ nth_error (r_att s') i = Some TFin.
+Proof. exact second_success_closes. Qed.
+Print Assumptions double_success_closes_loser.
+
+(* one address: _create_connection_impl([addr]) has exactly four shapes of outcome, and a failure always carries
+   at least one error (so the final exception group is never empty) *)
+Theorem single_address_outcomes : forall locals a open,
+  (exists n, cc_advance locals [a] 0 open = (CcDone (OutErrs n), open) /\ 1 <= n) \/
+  cc_advance locals [a] 0 open = (CcWait a [] 0, a_id a :: open) \/
+  cc_advance locals [a] 0 open = (CcDone (OutSock (a_id a)), a_id a :: open) \/
+  cc_advance locals [a] 0 open = (CcDone OutCrash, open).
+Proof. exact cc_single. Qed.
+Print Assumptions single_address_outcomes.
+
+(* the race's initial state satisfies the invariant record (non-vacuity of its hypotheses) *)
+Theorem race_invariant_initially : forall c, c_addrs c <> [] -> Inv c (init c).
+Proof. exact init_inv. Qed.
+Print Assumptions race_invariant_initially.
+
+Example ex_double_success :
+  let c := {| c_addrs := [ {| a_id := 0; a_fam := AF_INET6; a_create := true; a_conn := CkSuspend |};
+                           {| a_id := 1; a_fam := AF_INET; a_create := true; a_conn := CkSuspend |} ];
+              c_locals := None; c_delay := true |} in
+  option_map (fun s => (r_open s, r_result s))
+    (exec c (init c) [LHostStart; LChildStart 0; LHostNext true; LChildStart 1; LConnOk 1; LConnOk 0; LHostCancel;
+                      LHostFinish true]) = Some ([1], Some (ResSock 1)).
+Proof. vm_compute. reflexivity. Qed.
